@@ -27,6 +27,7 @@ import gen_limits  # noqa: E402
 import gen_alloc_sites  # noqa: E402
 import c03_gen_hdr  # noqa: E402
 import c03_gen_guards  # noqa: E402
+import c03_gen_namecopies  # noqa: E402
 import synthmods  # noqa: E402  (read-only: owned by C01)
 
 LEVEL = "proof"
@@ -47,7 +48,10 @@ MANIFEST = dict(
          "C03_count_oblig - for EVERY header the four core loaders accept, the counts they write pass the gate and need no "
          "clamp, pattern rows lie in 1..256 (IT 1..1024); (4) C03_player_sub/sample/trusted - the player's guards "
          "(get_subinstrument, IS_VALID_INSTRUMENT/NOTE/SAMPLE) render any event instrument/key, key map entry and sample id "
-         "harmless; the unguarded sub->sid uses are pinned by a generated site list. The check evaluates LoaderOblig on the RAW "
+         "harmless; the unguarded sub->sid uses are pinned by a generated site list; (5) Sweep.nameCopies_bounded / "
+         "rowStores_guarded - a generated list of every write into mod->name/type, xxi[].name, xxs[].name in src/loaders/*.c "
+         "shows that each one with a syntactically visible byte count leaves the array terminated, and every "
+         "hand-rolled store to a pattern/track row count excludes 0. The check evaluates LoaderOblig on the RAW "
          "module (observed inside load_module between the loader's return and the first modification) of every real load of "
          "corpus files, mutants, synthetic modules and header-probing files, and WF on the loaded module; a loader breaking an "
          "obligation is reported as a VIOLATION with the file as replay.",
@@ -77,7 +81,8 @@ REQUIRED = ["Xmp.LoadPost.C03_finish_wf", "Xmp.LoadPost.C03_sequences", "Xmp.Loa
             "Xmp.LoadPost.C03_hdr_mod", "Xmp.LoadPost.C03_hdr_s3m", "Xmp.LoadPost.C03_hdr_xm", "Xmp.LoadPost.C03_hdr_it",
             "Xmp.LoadPost.C03_hdr_rows", "Xmp.LoadPost.C03_count_oblig", "Xmp.LoadPost.Hdr.hdrLimits_sane",
             "Xmp.LoadPost.Hdr.modMagic_sane", "Xmp.LoadPost.C03_player_sub", "Xmp.LoadPost.C03_player_sample",
-            "Xmp.LoadPost.C03_player_trusted", "Xmp.LoadPost.Player.guards_present", "Xmp.LoadPost.Player.sidSites_known", "Xmp.LoadPost.C03_helpers_track",
+            "Xmp.LoadPost.C03_player_trusted", "Xmp.LoadPost.Player.guards_present", "Xmp.LoadPost.Player.sidSites_known",
+            "Xmp.LoadPost.Sweep.nameCopies_bounded", "Xmp.LoadPost.Sweep.nameCopies_sizes", "Xmp.LoadPost.Sweep.rowStores_guarded", "Xmp.LoadPost.C03_helpers_track",
             "Xmp.LoadPost.C03_helpers_pattern", "Xmp.LoadPost.allocSites_known", "Xmp.LoadPost.limits_sane"]
 
 # clauses of WF that the common path guarantees for arbitrary raw modules (WFCommon)
@@ -682,6 +687,10 @@ def run(ck):
     hl = c03_gen_hdr.generate()
     gd = c03_gen_guards.generate()
     ck.note("player_sid_sites", ["%s:%s:%s" % t for t in gd["sites"]])
+    nc = c03_gen_namecopies.generate()
+    ck.note("loader_name_writes", {"sites": len(nc["names"]), "bound_visible": sum(1 for t in nc["names"] if t[5] is not None),
+                                   "dynamic": ["%s:%s:%s" % t[:3] for t in nc["names"] if t[5] is None]})
+    ck.note("loader_row_stores", ["%s:%s:%s:%s" % t for t in nc["rows"]])
     ck.note("limits_stale_epilogue_literals", lim["stale"])
     ck.note("header_limits_stale", hl["stale"])
     ck.note("alloc_sites_direct", ["%s:%s:%s" % s for s in sites["direct"]])
